@@ -232,13 +232,17 @@ type httpReadWriter struct {
 }
 
 func (hrw *httpReadWriter) Read(ctx context.Context) (*Rpc, error) {
-	rpc, ok := <-hrw.readCh
-	if !ok {
-		log.Error().Msgf("HttpRpcReadWriter: read err: closed")
-		return nil, errors.New("readCh closed")
+	select {
+	case rpc, ok := <-hrw.readCh:
+		if !ok {
+			log.Error().Msgf("HttpRpcReadWriter: read err: closed")
+			return nil, errors.New("readCh closed")
+		}
+		hrw.bumpActivity()
+		return rpc, nil
+	case <-ctx.Done():
+		return nil, ctx.Err()
 	}
-	hrw.bumpActivity()
-	return rpc, nil
 }
 
 func (hrw *httpReadWriter) Write(ctx context.Context, rpc *Rpc) error {
@@ -249,7 +253,7 @@ func (hrw *httpReadWriter) Write(ctx context.Context, rpc *Rpc) error {
 		return err
 	}
 
-	r, err := http.NewRequest("POST", "http://"+hrw.writeAddr, bytes.NewBuffer(data))
+	r, err := http.NewRequestWithContext(ctx, "POST", "http://"+hrw.writeAddr, bytes.NewBuffer(data))
 	if err != nil {
 		hrw.cancel()
 		return err
